@@ -883,6 +883,16 @@ def store_subscript(E, base, idx, v, st, sink):
                 h.items = mk_bytes(parts[0] if len(parts) == 1 else z3.Concat(*parts))
                 st.writes.append((base.oid, '<data>'))
                 return [st]
+            if isinstance(v, Ref) and st.heap[v.oid].kind == 'obj' and st.heap[v.oid].cls is not None and \
+                    st.heap[v.oid].cls.find_method('__index__') is not None:
+                # bytearray[i] = obj: CPython converts through obj.__index__() (Integer objects)
+                outs = []
+                for o in E.call_function(FuncV(st.heap[v.oid].cls.find_method('__index__')), [v], {}, st):
+                    if o[0] == 'raise':
+                        sink.append(o)
+                    else:
+                        outs.extend(store_subscript(E, base, idx, o[2], o[1], sink))
+                return outs
             i = zint(idx)
             outs = []
             bad, ok = E.split(st, z3.Or(i >= n, i < -n))
